@@ -360,7 +360,7 @@ def check_sequence_pads(ctx):
                     else:
                         st = [s for s in bp.effects if s.kind == 'store_attr' and canon(s.obj) == 'fragments' and s.name == 'current_offset']
                         if not st or bp.effects.index(st[-1]) > bp.effects.index(c):
-                            ctx.violation(rule, fi, 'pack loop body', 'the cursor is not padded before the element is packed', c.lineno, clause='d')
+                            ctx.violation(rule, fi, 'pack loop body [%s]: %s' % ('; '.join(bp.guard_texts())[:60], c.text()[:60]), 'an element is packed in a loop body that does not pad the cursor first: unpack pads before every element, so the two sides place this element differently whenever the cursor is not already aligned', c.lineno, clause='d', witness=True)
                             continue
                         txt_e = Opaque('fragments.current_offset').visit(copy.deepcopy(st[-1].value))
                     key = (side, e.sub['kind'], canon(txt_e))
@@ -453,6 +453,11 @@ def check(ctx):
     check_packet_unpack(ctx, 'R8-begins-is-the-data-start')
     from .c03 import check_struct_code_owners
     check_struct_code_owners(ctx, rule='R2-move-runs-as-a-field')
+    # Round 6: (m) on output the cursor is moved by Move.pack (positioning) and by the per-element
+    # pad of Sequence.pack only; any other pack method that sets fragments.current_offset undoes or
+    # repeats a movement that parsing does not undo or repeat (C02-2, who-may-write)
+    from .c02 import check_concatenation
+    check_concatenation(ctx)
     # skipped bytes become holes only if every insert -- an empty chunk included -- is recorded
     # and moves the cursor (C11 clauses 1, 2); the fill of holes is C11 clause 5
     from .c11 import check as c11_check
